@@ -60,7 +60,16 @@ class C11(Check):
                   'leaving the same maps), and the hooks delivered are exactly the pairs at the prefixes of '
                   'the matched pattern, outermost first, with the matched prefix length (hooks_fire_exactly). Model tied '
                   'to the code by differential runs of whole edit histories (random + exhaustive small scope with state '
-                  'merging). By correspondence only: the 404 payload, rex selectors.')
+                  'merging). Enumeration and key forms (Model/RouterListing.lean): the explicit-stack loop of '
+                  'RadiDict._routes_iter yields exactly the routes of the tree, children first, each once '
+                  '(routes_iter_eq_denote, routes_iter_yield_hooks); after every edit history the enumeration, the '
+                  'routes index and the name index list the same routes (routes_iter_after_history); every key form of '
+                  'RadiRouter.__getitem__ / RouteKey is one of three lookups or is refused with the exception of the '
+                  'code (getitem_forms_agree) and returns the route resolve dispatches on '
+                  '(getitem_returns_resolved_route); _render_route output parses back on the plain-wildcard domain '
+                  '(render_route_roundtrip); params_unpack undoes params_signature; the Ombott wrappers add nothing '
+                  '(ombott_wrappers). By correspondence only: the 404 payload, rex selectors, str/repr and '
+                  'error-message texts, _routes_iter(startswith=...).')
     level_note_extra = ('hooks at or below a removed prefix* are unspecified by the property and excluded; '
                         'the rebuild-from-survivors step is proved (fresh_same_maps: the former hypothesis '
                         'SameSurvivors of history_eq_fresh_built is discharged for every history in the domain)')
@@ -68,7 +77,11 @@ class C11(Check):
             'remove(prefix*) / add_hook simple+partial / remove_hook) over rule universes with shared and split '
             'literal prefixes, wildcard siblings, filter clashes and hook-only prefixes, probed at random points '
             'and at the end: paths through RadiRouter.resolve and Ombott.__call__ (hooks that ran, order, '
-            'argument), every name, the rules used, get_hook, the three indexes; non-trivial = the history '
+            'argument), every name, the rules used, get_hook, the three indexes; in 60% of the histories also '
+            'Ombott.remove_route in its three argument forms and the listing probes: _routes_iter (with '
+            'startswith / yield_hooks), list(app.routes), repr/str of routes and methods, router[key] for every '
+            'key form (name, {rule}, dict forms, RouteKey variants, malformed keys), the RadiDictKeyError and '
+            'RouteMethodError texts, _render_route, params_unpack; non-trivial = the history '
             'removes something that existed and a later probe hits a route')
     assumptions = ['rule text contains no CR (the router\'s wildcard marker) and no repeated wildcard name (as C01)',
                    'a registered rule / hook rule does not end with `*` (the removal API\'s own prefix marker)',
